@@ -24,8 +24,9 @@ RULE = ('cases: (a) plain mode = secret class (1, n-1, leading zero bytes, high 
         'encrypt vs reference, decrypt of the reference string, decrypt with a different passphrase; (b) EC-multiplied = '
         'passphrase class x owner salt 8 bytes / lot+sequence (4 or 8 byte salt, lot/sequence edges) x compressed x network: '
         'intermediate code, generated key + confirmation code vs reference, decrypt of the reference key, different '
-        'passphrase; (c) freshness histories of successive default-argument calls of bip38_intermediate_password and '
-        'bip38_create_new_encrypted_wif. non-trivial = distinct (mode, API, secret/salt class, compressed, network, '
+        'passphrase; (c) one freshness history per run, in one process: >= 48 full default-argument flows (new intermediate code + '
+        'new key) followed by >= 96 new keys on one intermediate code (thorough: 400 + 3000), compared pairwise over the whole '
+        'history (owner salts, codes, seeds, keys, addresses, encrypted keys, confirmation codes, shared 8-byte windows). non-trivial = distinct (mode, API, secret/salt class, compressed, network, '
         'passphrase class, lot class) tuples; a history counts once per (function, length)')
 TRUSTED_BASE = ['vf/refs/bip38.py (self-checked: all BIP38 test vectors incl. unicode passphrase, EC-multiplied with and without '
                 'lot/sequence, confirmation codes, RFC 7914 scrypt and FIPS-197 AES vectors, repo tests/bip38_protected_key_tests.json)',
@@ -321,61 +322,116 @@ def chk_ec(case, col, rnd):
 
 
 # ------------------------------------------------------------------------------------------------ freshness
+def _first_repeat(values):
+    """-> (j, i) 1-based request numbers of the first value that equals an earlier one, or None."""
+    seen = {}
+    for n, v in enumerate(values, 1):
+        if v in seen:
+            return n, seen[v]
+        seen[v] = n
+    return None
+
+
+def _shared_window(draws, width=8):
+    """draws: [(label, bytes)]. Random material handed out twice shows up as an 8-byte window shared by two different
+    draws even when the two requests are cut differently (salt vs seed, shifted offsets); an accidental match has
+    probability ~ n^2 / 2^64. -> (label_later, label_earlier, window) or None."""
+    seen = {}
+    for label, b in draws:
+        mine = set()
+        for k in range(len(b) - width + 1):
+            w = b[k:k + width]
+            if w in seen and w not in mine:
+                return label, seen[w], w
+            mine.add(w)
+        for w in mine:
+            seen.setdefault(w, label)
+    return None
+
+
 def chk_fresh(case, col):
-    """History of `n` successive default-argument generation calls in this process."""
+    """One history, in this process, of successive default-argument generation requests:
+    `n_flows` full flows (new intermediate code with a default owner salt + new key with a default seed), then `n_batch`
+    new keys on one intermediate code. Owner salts, intermediate codes, seeds, public keys, addresses, encrypted keys and
+    confirmation codes must be pairwise distinct over the WHOLE history, and no two draws may share random material."""
     from bitcoinlib import keys
-    n_int, n_new = case.get('n_intermediate', 2), case.get('n_new', 4)
+    n_flows, n_batch = int(case.get('n_flows', 0)), int(case.get('n_batch', 0))
     pw = case.get('pass', 'freshness')
-    col.case('fresh/history', nontrivial=('fresh', n_int, n_new), sample=case)
-    codes = []
-    for i in range(n_int):
+    col.case('fresh/history', nontrivial=('fresh', n_flows, n_batch), sample=case)
+    codes, salts, res, draws = [], [], [], []
+
+    def new_key(code, label, compressed):
+        col.probe('fresh_new_key_call')
+        try:
+            r = keys.bip38_create_new_encrypted_wif(code, compressed=compressed)
+        except Exception as e:
+            col.violation(None, 'bip38_create_new_encrypted_wif(default seed) raised %r' % (e,), case, repr(e), None)
+            return
+        seed = bytes(r['seed'])
+        if len(seed) != 24:
+            col.violation(None, 'generated seed is not 24 bytes', case, seed, 24)
+        res.append((label, r, seed))
+        draws.append((label + ' seed', seed))
+
+    for i in range(n_flows):
+        label = 'flow #%d' % (i + 1)
         col.probe('fresh_intermediate_call')
         try:
-            codes.append(keys.bip38_intermediate_password(pw))
+            code = keys.bip38_intermediate_password(pw)
         except Exception as e:
             col.violation(None, 'bip38_intermediate_password(default salt) raised %r' % (e,), case, repr(e), None)
-    salts = []
-    for c in codes:
+            continue
         try:
-            salts.append(ref.parse_intermediate(c)['ownerentropy'])
+            salt = ref.parse_intermediate(code)['ownerentropy']
         except Exception as e:
-            col.violation(None, 'default-salt intermediate code is malformed: %r' % (e,), case, c, None)
+            col.violation(None, 'default-salt intermediate code is malformed: %r' % (e,), case, code, None)
+            continue
+        codes.append(code)
+        salts.append(salt)
+        draws.append((label + ' owner salt', salt))
+        new_key(code, label, bool(i % 2 == 0))
+    batch_code = codes[0] if codes else ref.intermediate_code(pw, bytes(range(8)))
+    for i in range(n_batch):
+        new_key(batch_code, 'batch #%d' % (i + 1), bool(i % 2 == 0))
+
+    # -- owner salts / intermediate codes
     if len(salts) >= 2:
-        col.probe('fresh_salt_history')
-        if len(set(salts)) != len(salts):
+        col.probe('fresh_salt_history', len(salts))
+        rep = _first_repeat(salts) or _first_repeat(codes)
+        if rep:
             key = None
             d = keys.bip38_intermediate_password.__defaults__
             if d and isinstance(d[-1], bytes) and set(salts) == {d[-1]}:
                 key = K_FRESH_SALT          # every call used the very bytes object bound as default at import time
-            col.violation(key, '%d successive bip38_intermediate_password calls produced %d distinct owner salts' % (len(salts), len(set(salts))),
-                          case, [s.hex() for s in salts], 'pairwise distinct')
-    # one reference-made intermediate code (fixed salt) so that only the seed decides
-    code = codes[0] if codes else ref.intermediate_code(pw, bytes(range(8)))
-    res = []
-    for i in range(n_new):
-        col.probe('fresh_new_key_call')
-        try:
-            res.append(keys.bip38_create_new_encrypted_wif(code, compressed=bool(i % 2 == 0)))
-        except Exception as e:
-            col.violation(None, 'bip38_create_new_encrypted_wif(default seed) raised %r' % (e,), case, repr(e), None)
+            col.violation(key, 'default-salt intermediate code request #%d repeats request #%d (%d requests in one process, %d distinct owner salts)' % (
+                rep[0], rep[1], len(salts), len(set(salts))), case, [salts[rep[0] - 1].hex(), salts[rep[1] - 1].hex()], 'pairwise distinct')
+    # -- seeds and everything derived from them, over the whole history (flows and batch together)
     if len(res) >= 2:
-        col.probe('fresh_seed_history')
-        seeds = [bytes(r['seed']) for r in res]
-        pubs = [ec.decode_pub(bytes.fromhex(r['public_key'])) for r in res]
-        if len(set(seeds)) != len(seeds) or len(set(pubs)) != len(pubs):
-            key = None
-            d = keys.bip38_create_new_encrypted_wif.__defaults__
-            if d and any(isinstance(x, bytes) and set(seeds) == {x} for x in d):
-                key = K_FRESH_SEED
-            col.violation(key, '%d successive bip38_create_new_encrypted_wif calls produced %d distinct seeds / %d distinct keys' % (
-                len(seeds), len(set(seeds)), len(set(pubs))), case, [s.hex() for s in seeds], 'pairwise distinct')
-        for r in res:
-            if len(bytes(r['seed'])) != 24:
-                col.violation(None, 'generated seed is not 24 bytes', case, r['seed'], 24)
-    # the last generated key belongs to the passphrase (one scrypt; also ties the history to real keys)
+        col.probe('fresh_seed_history', len(res))
+        seeds = [x[2] for x in res]
+        fields = [('seed', seeds)] + [(f, [x[1][f] for x in res]) for f in ('encrypted_wif', 'address', 'public_key', 'confirmation_code')]
+        for fname, vals in fields:
+            rep = _first_repeat(vals)
+            if rep:
+                key = None
+                d = keys.bip38_create_new_encrypted_wif.__defaults__
+                if d and any(isinstance(x, bytes) and set(seeds) == {x} for x in d):
+                    key = K_FRESH_SEED
+                v = vals[rep[0] - 1]
+                col.violation(key, 'new-key request #%d (%s) returned the same %s as request #%d (%s); %d requests in one process, %d distinct seeds' % (
+                    rep[0], res[rep[0] - 1][0], fname, rep[1], res[rep[1] - 1][0], len(res), len(set(seeds))),
+                    case, v.hex() if isinstance(v, bytes) else v, 'pairwise distinct')
+                break
+    # -- no random material handed out twice (differently cut requests included)
+    if len(draws) >= 2:
+        col.probe('fresh_material_windows', len(draws))
+        sw = _shared_window(draws)
+        if sw and not (_first_repeat(salts) or _first_repeat([x[2] for x in res])):
+            col.violation(None, 'random material reused within one process: %s shares 8 bytes with %s' % (sw[0], sw[1]), case, sw[2].hex(), 'disjoint draws')
+    # -- the last generated key belongs to the passphrase (one scrypt; ties the history to real keys)
     if res and case.get('decrypt_one', True):
         col.probe('fresh_generated_key_decrypts')
-        r = res[-1]
+        r = res[-1][1]
         try:
             sec, comp = ref.decrypt(r['encrypted_wif'], pw)
             if ref.BITCOIN(ec.pub_from_secret(int.from_bytes(sec, 'big'), comp)) != r['address']:
@@ -390,6 +446,14 @@ def _selfcheck(col, full):
     import json
     from vf import env as venv
     try:
+        if full == 'minimal':       # freshness shard: Base58Check + EC-multiplied parse/decrypt path (one scrypt)
+            codec.selfcheck()
+            ec.selfcheck()
+            v = ref._EC[2]
+            r = ref.decrypt_info(v[2], v[0])
+            assert r['address'] == v[3] and (r['lot'], r['sequence']) == (v[6], v[7])
+            assert ref.parse_intermediate(v[1])['ownerentropy'][4:] == (v[6] * 4096 + v[7]).to_bytes(4, 'big')
+            return True
         rv = None
         p = os.path.join(venv.repo_dir(), 'tests', 'bip38_protected_key_tests.json')
         if full and os.path.exists(p):
@@ -426,8 +490,12 @@ def plan(tier, seed, scale=1.0):
         specs.append({'shard': i, 'nshard': nshard,
                       'n_noec': max(1, int((30 if thorough else 1) * scale)),
                       'n_ec': max(1, int((30 if thorough else 1) * scale)),
-                      'fresh': ({'n_intermediate': 4, 'n_new': 9} if thorough else ({'n_intermediate': 2, 'n_new': 4} if i < 3 else None)),
-                      'full_selfcheck': i == 0})
+                      'fresh': None, 'full_selfcheck': i == 0})
+    # one dedicated process for the freshness history (a history is a statement about ONE process). Cost measured:
+    # ~0.4 s per full flow (one scrypt 16384/8/8), ~5 ms per new key on an existing intermediate code.
+    specs.append({'shard': nshard, 'nshard': nshard, 'n_noec': 0, 'n_ec': 0, 'full_selfcheck': 'minimal',
+                  'fresh': {'n_flows': max(48, int((400 if thorough else 48) * scale)),
+                            'n_batch': max(96, int((3000 if thorough else 160) * scale))}})
     return specs
 
 
@@ -470,8 +538,12 @@ def run_shard(spec, col):
     if not _selfcheck(col, full=spec.get('full_selfcheck', False)):
         return
     for p in ('noec_encrypt', 'noec_decrypt', 'noec_wrong_passphrase', 'ec_intermediate', 'ec_generate', 'ec_decrypt',
-              'ec_wrong_passphrase', 'fresh_salt_history', 'fresh_seed_history'):
+              'ec_wrong_passphrase'):
         col.require(p)
+    # the freshness history must be long: >= 48 owner salts and >= 144 seeds compared pairwise within one process
+    col.require('fresh_salt_history', 48)
+    col.require('fresh_seed_history', 144)
+    col.require('fresh_material_windows', 192)
     rnd = random.Random('%s-%d-%d' % (ID, spec['seed'], spec['shard']))
     sh, ns = spec['shard'], spec['nshard']
     off = spec['seed'] * 7919
